@@ -217,7 +217,14 @@ def _persist_jobs(tier, mons, crash):
 def c05(tier, seed, only=None):
     t0 = time.time()
     mons = [P + "PersistTwin"]
-    jobs = _filter(_persist_jobs(tier, mons, True), only)
+    jobs = _persist_jobs(tier, mons, True)
+    for j in jobs:
+        j["cfg"]["snap_graph"] = True
+    # definitions whose input / vars / output fail to render (persist before the first call, too)
+    for s in gen.fx_all(tier):
+        if s.meta.get("position") in ("input", "vars", "output", "retry_count", "publish") and s.meta.get("lang") == "yaql":
+            jobs.append(job(s, dict(crash=True, horizon=40, render=True, dev=3, snap_graph=True), mons))
+    jobs = _filter(jobs, only)
     results = runner.run_jobs(jobs, seed=seed)
     rule = (
         "every explored move is executed on the live conductor (pickle snapshot, in-memory aliasing kept) "
